@@ -3,8 +3,8 @@ CONSTANTS
   Class = "stdio"
   Ideal = FALSE
   KSet = {"n"}
-  NW <- W20
-  NR <- W02
+  NW <- W02
+  NR <- W20
   NC <- W11
   WMax = 3
   CMax = 2
